@@ -14,3 +14,12 @@ mod migrations;
 #[cfg(test)]
 #[cfg(not(target_arch = "wasm32"))]
 pub mod tests;
+
+/// Verification hooks: re-exports of the private pure-math modules so that an external harness
+/// can drive them directly. Only compiled with `--cfg wwcore_verif`.
+#[cfg(wwcore_verif)]
+pub mod verif_hooks {
+    pub use crate::error::*;
+    pub use crate::helpers::*;
+    pub use crate::stableswap_math::curve::*;
+}
